@@ -3,10 +3,12 @@
 //!   verif_replay <unit> replay <json>    -> re-run one recorded witness
 //! Output: one JSON object per line on stdout.
 mod u1;
+mod u1b;
 mod u10;
 mod u2;
 mod u2b;
 mod u3;
+mod u4;
 mod u5;
 mod u6;
 mod u8;
@@ -28,12 +30,16 @@ fn main() {
     ("u1", "find") => u1::find(rest),
     ("u1", "replay") => u1::replay(rest),
     ("u1", "raw") => u1::raw(rest),
+    ("u1b", "find") => u1b::find(rest),
+    ("u1b", "replay") => u1b::replay(rest),
     ("u2", "find") => u2::find(rest),
     ("u2", "replay") => u2::replay(rest),
     ("u2b", "find") => u2b::find(rest),
     ("u2b", "replay") => u2b::replay(rest),
     ("u10", "find") => u10::find(rest),
     ("u10", "replay") => u10::replay(rest),
+    ("u4", "find") => u4::find(rest),
+    ("u4", "replay") => u4::replay(rest),
     ("u5", "find") => u5::find(rest),
     ("u5", "replay") => u5::replay(rest),
     ("u6", "find") => u6::find(rest),
